@@ -10,6 +10,7 @@ import (
 
 	"pgregory.net/rapid"
 
+	"verif/harness/cat"
 	"verif/harness/ev"
 	"verif/harness/gw"
 	"verif/harness/pt"
@@ -27,6 +28,9 @@ type caseD struct {
 	Objects []string `json:"objects"` // keys; a trailing '/' makes a directory object
 	Plain   []string `json:"plain"`   // empty plain directories made on the storage, not through the API
 	Remove  int      `json:"remove"`  // how many of the objects are deleted (in order) before the second DeleteBucket
+	// Recreate: the bucket belongs to alice (who uses it) in its first life; once DeleteBucket has removed it, carol
+	// creates a bucket of the same name: nothing of the first one - owner, ACL - is left to act on the second
+	Recreate bool `json:"recreate,omitempty"`
 }
 
 var dNo int
@@ -69,6 +73,52 @@ func runD(c caseD) error {
 		os.RemoveAll(filepath.Join(sb.Ver, b))
 		os.RemoveAll(filepath.Join(scDir, b))
 	}()
+	alice, carol := cl.As(cat.Users["alice"]), cl.As(cat.Users["carol"])
+	if c.Recreate {
+		if r := cl.MustCall("PATCH", "/change-bucket-owner", s3c.Q("bucket", b, "owner", "alice"), nil, nil); !r.OK() {
+			return fmt.Errorf("SETUP: change owner: %v", r)
+		}
+		if r := alice.MustCall("PUT", "/"+b+"/warm", nil, nil, []byte("x")); !r.OK() {
+			return fmt.Errorf("the owner's PutObject into her bucket answers %v", r)
+		}
+		alice.MustCall("GET", "/"+b+"/warm", nil, nil, nil)
+		if r := alice.MustCall("DELETE", "/"+b+"/warm", nil, nil, nil); !r.OK() {
+			return fmt.Errorf("the owner's DeleteObject in her bucket answers %v", r)
+		}
+	}
+	afterlife := func(where string) error {
+		if !c.Recreate {
+			return nil
+		}
+		if r := carol.MustCall("PUT", "/"+b, nil, nil, nil); !r.OK() {
+			return fmt.Errorf("%s: the bucket is deleted; CreateBucket of the same name by carol (userplus) answers %v", where, r)
+		}
+		ar := cl.MustCall("GET", "/"+b, s3c.Q("acl", ""), nil, nil)
+		if !ar.OK() || !strings.Contains(string(ar.Body), "<ID>carol</ID>") || strings.Contains(string(ar.Body), "alice") {
+			return fmt.Errorf("%s: carol created the bucket anew; its ACL reads %v %s (the first bucket of that name belonged to alice)", where, ar, ar.Body)
+		}
+		if r := carol.MustCall("PUT", "/"+b+"/mine", nil, nil, []byte("carol's")); !r.OK() {
+			return fmt.Errorf("%s: carol created the bucket anew; her PutObject into it answers %v (the first bucket of that name belonged to alice)", where, r)
+		}
+		for _, q := range [][2]string{{"GET", "/" + b + "/mine"}, {"PUT", "/" + b + "/planted"}, {"GET", "/" + b + "?acl="}, {"GET", "/" + b}} {
+			path, query := q[1], []s3c.KV(nil)
+			if strings.HasSuffix(path, "?acl=") {
+				path, query = strings.TrimSuffix(path, "?acl="), s3c.Q("acl", "")
+			}
+			var body []byte
+			if q[0] == "PUT" {
+				body = []byte("alice's")
+			}
+			if r := alice.MustCall(q[0], path, query, nil, body); r.Status != 403 {
+				return fmt.Errorf("%s: carol created the bucket anew; %s %s by alice, the owner of the deleted bucket of that name, answers %d %s", where, q[0], q[1], r.Status, r.Code())
+			}
+		}
+		carol.MustCall("DELETE", "/"+b+"/mine", nil, nil, nil)
+		if r := carol.MustCall("DELETE", "/"+b, nil, nil, nil); r.Status != 204 {
+			return fmt.Errorf("%s: DeleteBucket of the second bucket by its owner answers %d %s", where, r.Status, r.Code())
+		}
+		return nil
+	}
 	var present []string
 	for _, k := range c.Objects {
 		var body []byte
@@ -112,7 +162,7 @@ func runD(c caseD) error {
 				}
 			}
 		}
-		return nil
+		return afterlife(where)
 	}
 	if err := del("with all objects", present); err != nil {
 		return err
@@ -167,6 +217,7 @@ func TestC16Delete(t *testing.T) {
 			Objects: rapid.SliceOfNDistinct(keyGen, 0, 4, rapid.ID[string]).Draw(t, "objects"),
 			Plain:   rapid.SliceOfNDistinct(rapid.SampledFrom([]string{"x", "x/y", "x/y/z", "a/left", "b/c/left", "left"}), 0, 3, rapid.ID[string]).Draw(t, "plain"),
 			Remove:  rapid.IntRange(0, 4).Draw(t, "remove")}
+		c.Recreate = rapid.IntRange(0, 2).Draw(t, "recreate") == 0
 		ev.Trace("C16D", c)
 		nested := false
 		for _, k := range c.Objects {
